@@ -87,6 +87,8 @@ def run(ck):
     one_line(ck, one)
     handler_protocol(ck)
     per_call_answers(ck, (ini, one))
+    ck.rule("C19-O8", "no constructor or destructor of a library base class calls (directly or through its own non-virtual methods) a virtual method that a subclass overrides")
+    no_virtual_dispatch_in_ctor(ck)
     ck.rule("C19-O7", "what an output prints is the formatter's text whenever a formatter ran, the empty text included: formattedMessage()/isFormatted() distinguish 'null' (nothing formatted) from 'empty'")
     from rules.c01 import logmessage
     logmessage(ck, "C19-O7")
@@ -804,3 +806,44 @@ def share_ini_obligation(ck, rid, key_suffix, rule_text):
         ck.ob(rid, sitestr(ini), None, "how '%s' travels from the settings to its handler could not be followed" % key_suffix.split("|")[-1], key="frontend|%s" % key_suffix)
     for o in got:
         ck.ob(rid, o["site"], {"discharged": True, "violated": False}.get(o["verdict"]), o["what"], key="frontend|%s" % key_suffix)
+
+
+def no_virtual_dispatch_in_ctor(ck):
+    """C19-O8: the colour decision of the console sinks (`stdout_color`, `stderr_color`, the one-line front-end's colour) is ColorMode::Auto -> isTty(), and
+    isTty() is what StdOutSink / StdErrSink override. A virtual call made while a base-class constructor (or destructor) runs reaches the base class's
+    own version, never the override: evaluated there, the decision is made without asking the stream."""
+    F = ck.facts
+    n_cls, n_calls = 0, 0
+    for q, rec in sorted(F.records.items()):
+        if not q.startswith("QtLogger::") or not F.subclasses(q):
+            continue
+        subs = F.subclasses(q)
+        cds = [f for f in F.fns.values() if f.cls == q and f.body is not None and f.d.get("kind") in ("ctor", "dtor")]
+        if not cds:
+            continue
+        n_cls += 1
+        own = {f.id: f for f in F.fns.values() if f.cls == q and f.body is not None}
+        for cd in cds:
+            # calls on `this` reachable from the constructor through the class's own non-virtual methods
+            seen, todo = set(), [cd]
+            while todo:
+                f = todo.pop()
+                if f.id in seen:
+                    continue
+                seen.add(f.id)
+                for c in f.calls():
+                    o = skip_copies(c.get("obj")) if isinstance(c.get("obj"), dict) else None
+                    if c.get("ck") != "member" or not (o is None or o.get("k") == "this"):
+                        continue
+                    n_calls += 1
+                    tgt = F.fns.get(c.get("fn"))
+                    if c.get("virtual") and not c.get("qualified"):
+                        ovs = [F.fns[o_] for o_ in F.overriders.get(c.get("fn"), ()) if o_ in F.fns and F.fns[o_].cls in subs]
+                        if ovs:
+                            ck.ob("C19-O8", sitestr(f, c), False, "%s runs while a %s object is still being %s and calls the virtual %s(): the call reaches %s's own version, not the override in %s - "
+                                  "the answer the subclass would give (is the stream a terminal?) is never asked" %
+                                  (strip_tmpl(f.name).replace("QtLogger::", ""), q.split("::")[-1], "constructed" if cd.d.get("kind") == "ctor" else "destroyed", (c.get("callee") or "").split("::")[-1],
+                                   q.split("::")[-1], ", ".join(sorted(x.cls.split("::")[-1] for x in ovs))), key="ctor-virtual|%s|%s" % (q.split("::")[-1], (c.get("callee") or "").split("::")[-1]))
+                    elif tgt is not None and tgt.id in own and not c.get("virtual"):
+                        todo.append(tgt)
+    ck.ob("C19-O8", "src/qtlogger (classes with subclasses)", True, "%d constructors / destructors of base classes looked at (%d calls on this): summary" % (n_cls, n_calls), key="ctor-virtual|summary")
